@@ -1916,6 +1916,10 @@ func (ce *callEngine) callNativeFunc(ctx context.Context, m *wasm.ModuleInstance
 					panic(wasmruntime.ErrRuntimeOutOfBoundsMemoryAccess)
 				}
 				ce.pushValue(lo)
+				// offset+8 must not wrap around: the upper half would be read from address zero.
+				if uint64(offset)+8 > math.MaxUint32 {
+					panic(wasmruntime.ErrRuntimeOutOfBoundsMemoryAccess)
+				}
 				hi, ok := memoryInst.ReadUint64Le(offset + 8)
 				if !ok {
 					panic(wasmruntime.ErrRuntimeOutOfBoundsMemoryAccess)
